@@ -205,6 +205,10 @@ func runKDCFlow(tp *Tape, res *core.Result, rng *core.Rng) {
 		if d >= space {
 			break
 		}
+		if k < tp.Skip {
+			continue
+		}
+		batchPos = k
 		// a fresh client per delivery; preparation over an honest network
 		cl := client.NewWithPassword("alice", "SIM.TEST", flowPassword, cfg)
 		armed, perturb, mangle, targetN, honestLen = false, nil, nil, 0, 0
@@ -313,6 +317,10 @@ func runAPFlow(tp *Tape, res *core.Result, rng *core.Rng) {
 		if d >= space {
 			break
 		}
+		if k < tp.Skip {
+			continue
+		}
+		batchPos = k
 		simrt.SleepExact(int64(3 * time.Second))
 		s := time.Now().UTC().Truncate(time.Second)
 		spec := world.ReqSpec{Client: "alice", Svc: "HTTP/host.sim.test", Realm: "SIM.TEST", Kvno: 2, Etype: et, KvnoField: true, StartTime: true, Cksum: true, Subkey: d%2 == 0}
